@@ -275,17 +275,23 @@ fn check(property: &str, tier: &str) {
                 core::Caught::Panic(..) => mv.oracle == "PANIC",
                 _ => false,
             };
-            if !reproduced {
-                eprintln!("harness error: minimised plan for class {class} (run {run}) does not reproduce");
-                std::process::exit(2);
-            }
+            let (plan, mv, minimised) = if reproduced {
+                (plan, mv, true)
+            } else {
+                // The violation was observed in the batch but does not show again when its plan is
+                // re-executed here. Everything the simulator decides is replayed exactly, so what
+                // differs is something it does not own: the allocator's choice of addresses (S6).
+                // Report the unminimised plan and say so, rather than hiding a violation that was seen.
+                println!("NOTE: class {class} (run {run}) was observed in the batch but did not show again when re-executed in this process; it depends on state the simulator does not control (allocation addresses). The unminimised plan is written as replay file.");
+                (sim.plan_json(seed, *run), v.clone(), false)
+            };
             let path = write_replay(&ReplayFile {
                 format: 1,
                 property: property.to_string(),
                 simulator: sim.name().to_string(),
                 seed,
                 run: *run,
-                minimised: true,
+                minimised,
                 original_steps,
                 violation: mv.clone(),
                 plan,
